@@ -5,11 +5,14 @@ rows = []
 for d in sorted(glob.glob('/verif/seeded/*/meta.json')):
     m = json.load(open(d))
     first = 'missed at first' if 'missed' in m.get('note', '').lower() else 'caught at once'
+    if m.get('status') != 'caught':
+        first = 'NOT CAUGHT'
     rows.append((m['id'], ', '.join(os.path.basename(f) for f in m['files_changed']), m['needs_to_manifest'], m['caught_by'], first))
 print('| change | file | needs | caught by | history |')
 print('|---|---|---|---|---|')
 for r in rows:
     print('| ' + ' | '.join(x.replace('|', '\\|').replace('\n', ' ') for x in r) + ' |')
 n_first = sum(1 for r in rows if r[4] == 'caught at once')
+n_not = sum(1 for r in rows if r[4] == 'NOT CAUGHT')
 print()
-print(f'{len(rows)} changes kept, {n_first} caught by the checks as they stood, {len(rows)-n_first} missed at first and caught after the strengthening described in each meta.json.')
+print(f'{len(rows)} changes kept, {n_first} caught by the checks as they stood, {len(rows)-n_first-n_not} missed at first and caught after the strengthening described in each meta.json, {n_not} not caught (out of reach of the simulation, see its meta.json).')
